@@ -462,7 +462,7 @@ def run(facts, rep, tier):
     seen = set()
     from ..absint.domain import EnumV
     for r in sel(out["results"], "K1"):
-        if not (isinstance(r.gate, EnumV) and r.gate.only("None")) and not (r.diverged and r.gate is None):
+        if not (isinstance(r.gate, EnumV) and r.gate.only("None")) and not (r.diverged and not isinstance(r.gate, EnumV)):
             continue        # an accepted line: what runs after the gate is not "rejecting a line"
         n3 += 1
         bad = [o for o in r.obligations if not o["ok"]]
